@@ -745,6 +745,10 @@ int cp_rsa_dec(uint8_t *out, size_t *out_len, const uint8_t *in, size_t in_len,
 		bn_new(eb);
 
 		bn_read_bin(eb, in, in_len);
+
+		/* The ciphertext representative is in the range [0, n - 1]. */
+		int in_range = (bn_cmp(eb, prv->crt->n) == RLC_LT);
+
 #if !defined(CP_CRT)
 		bn_mxp(eb, eb, prv->d, prv->crt->n);
 #else
@@ -752,11 +756,11 @@ int cp_rsa_dec(uint8_t *out, size_t *out_len, const uint8_t *in, size_t in_len,
 #endif /* CP_CRT */
 
 #if CP_RSAPD == BASIC
-		if (pad_basic(eb, &pad_len, in_len, size, RSA_DEC) == RLC_OK) {
+		if (in_range && pad_basic(eb, &pad_len, in_len, size, RSA_DEC) == RLC_OK) {
 #elif CP_RSAPD == PKCS1
-		if (pad_pkcs1(eb, &pad_len, in_len, size, RSA_DEC) == RLC_OK) {
+		if (in_range && pad_pkcs1(eb, &pad_len, in_len, size, RSA_DEC) == RLC_OK) {
 #elif CP_RSAPD == PKCS2
-		if (pad_pkcs2(eb, &pad_len, in_len, size, RSA_DEC) == RLC_OK) {
+		if (in_range && pad_pkcs2(eb, &pad_len, in_len, size, RSA_DEC) == RLC_OK) {
 #endif
 			size = size - pad_len;
 
